@@ -57,7 +57,7 @@ def rnd_desc(rng: random.Random, i: int) -> dict[str, Any]:
         n = rng.choice(names)
         r = rng.random()
         if r < 0.35:
-            tl.append([t, 'edit', n, {'spec': {'x': k + 1}}])
+            tl.append([t, 'edit', n, {'spec': {'x': rng.choice([k + 1, k + 1, 0])}}])      # (0: back to the value it was created and handled with)
         elif r < 0.55:
             tl.append([t, 'edit', n, {'status': {'f': k}}])
         elif r < 0.65:
@@ -99,6 +99,21 @@ def gen_cases(tier: str, seed: int):
         for t_brk in (2.0, 3.5, 5.0):
             cases.append({'name': f'relist-during-creation-{brk}-{t_brk}', 'desc': {'handlers': HN, 'settings': S, 'quiet': 15.0, 'horizon': 300.0, 'timeline': [
                 [0, 'start', 'op1'], [1, 'create', 'a', {'spec': {'x': 0}}], [t_brk, 'compact'], [round(t_brk + 0.001, 3), 'break', brk], [5.5, 'delete', 'a']]}})
+    # the open resume cycle is superseded by another cause and comes back: one resume handler has succeeded, its sibling is waiting for a retry, when the
+    # object is edited (update supersedes resuming) and the edit is reverted (resuming again), or the object is deleted (deletion with the opted-in one mixed in)
+    for storage in ('default', 'status', 'annotations'):
+        for lifecycle in (None, 'all_at_once'):
+            for delay in (4.0, 9.0):
+                for gap in (0.4, 1.5):
+                    HS = [{'kind': 'create', 'id': 'c1'}, {'kind': 'update', 'id': 'u1'}, {'kind': 'resume', 'id': 'r1', 'opts': {'deleted': True}},
+                          {'kind': 'resume', 'id': 'r2', 'script': [['temp', delay], ['ok']]}, {'kind': 'delete', 'id': 'd1'}, {'kind': 'delete', 'id': 'd2', 'script': [['temp', 1.5]]}]
+                    base_tl = [[0, 'start', 'op1'], [1, 'create', 'a', {'spec': {'x': 0}}], [3, 'stop_wait', 'op1'], [4, 'start', 'op2']]
+                    cases.append({'name': f'supersede-revert-{storage}-{lifecycle}-{delay}-{gap}', 'desc': {
+                        'handlers': HS, 'settings': S, 'storage': storage, 'lifecycle': lifecycle, 'quiet': 15.0, 'horizon': 300.0,
+                        'timeline': base_tl + [[5.0, 'edit', 'a', {'spec': {'x': 1}}], [round(5.0 + gap, 3), 'edit', 'a', {'spec': {'x': 0}}]]}})
+                    cases.append({'name': f'supersede-delete-{storage}-{lifecycle}-{delay}-{gap}', 'desc': {
+                        'handlers': HS, 'settings': S, 'storage': storage, 'lifecycle': lifecycle, 'quiet': 15.0, 'horizon': 300.0,
+                        'timeline': base_tl + [[round(5.0 + gap, 3), 'delete', 'a']]}})
     n = 500 if tier == 'quick' else 20000
     for i in range(n):
         cases.append({'name': f'rnd{i}', 'desc': rnd_desc(rng, i)})
